@@ -82,6 +82,7 @@ type Exec struct {
 	wg                  map[string]int
 	atomicPtr           map[string]Value
 	lastNow             *Term
+	guards              []guardEntry
 	epoch               int
 	pending             *abortSig
 	preempt, maxPreempt int
@@ -774,6 +775,9 @@ func (x *Exec) step(fr *Frame, in ssa.Instruction) {
 		}
 		m := x.get(fr, in.X).(*MapV)
 		it := &MapIter{M: m}
+		if m != nil && x.guards != nil {
+			x.checkGuardObj(m)
+		}
 		if m != nil {
 			it.Snap = append(it.Snap, m.Entries...)
 			if x.eng.mapOrderFork && len(it.Snap) > 1 && len(it.Snap) <= 3 {
@@ -977,6 +981,9 @@ func (x *Exec) mapHas(m *MapV, e *MapEntry) bool {
 func (x *Exec) mapFind(m *MapV, k Value) *MapEntry {
 	if m == nil {
 		return nil
+	}
+	if x.guards != nil {
+		x.checkGuardObj(m)
 	}
 	for _, e := range m.Entries {
 		if x.branch(x.eqVal(e.K, k)) {
